@@ -143,7 +143,9 @@ func impliedObjectType(dec *msgpack.Decoder, depth int) (cty.Type, error) {
 		if atys == nil {
 			atys = make(map[string]cty.Type)
 		}
-		atys[k] = aty
+		// (normalized as cty.Object will: the last of two spellings of one
+		// name wins, like the last of two equal keys)
+		atys[cty.NormalizeString(k)] = aty
 	}
 
 	if len(atys) == 0 {
